@@ -84,6 +84,7 @@ type EvBuildFail struct {
 	Batch    []Doc  `json:"batch"`
 	Rejected bool   `json:"rejected"` // the batch contains a field the installed validator rejects
 	Panic    string `json:"panic"`
+	Engine   bool   `json:"engine"` // an engine failure was injected into this build
 }
 
 type Footer struct {
@@ -133,6 +134,7 @@ type EvMerge struct {
 	Size   int    `json:"size"`
 	Exists bool   `json:"exists"`
 	FLen   int    `json:"flen"`
+	Engine bool   `json:"engine"` // an engine failure was injected into this merge
 }
 
 type DvWalkVisit struct {
@@ -361,20 +363,22 @@ func probesFor(u *universe, r *rand.Rand, ndocs int, light bool) *Probes {
 const maxTermProbes = 48
 
 type Life struct {
-	tr      *Tracer
-	r       *rand.Rand
-	dir     string
-	segs    map[int]*hseg
-	nextSid int
-	nextFil int
-	files   map[int]*universe
-	fileN   map[int]int
-	fileZ   map[int]bool
-	fileL   map[int]map[int]bool
-	plugin  *zap.ZapPlugin
-	light   bool
-	parkGC  bool // build-history mode: garbage collector parked, residues logged
-	maxTLC  int  // files up to this size are logged byte for byte
+	tr       *Tracer
+	r        *rand.Rand
+	dir      string
+	segs     map[int]*hseg
+	nextSid  int
+	nextFil  int
+	files    map[int]*universe
+	fileN    map[int]int
+	fileZ    map[int]bool
+	fileL    map[int]map[int]bool
+	plugin   *zap.ZapPlugin
+	light    bool
+	injected bool   // an engine failure plan is active (failed builds / merges are explained by it)
+	afterNew func() // called right after ZapPlugin.New returned (before the observation)
+	parkGC   bool   // build-history mode: garbage collector parked, residues logged
+	maxTLC   int    // files up to this size are logged byte for byte
 }
 
 func NewLife(tr *Tracer, r *rand.Rand, dir string) *Life {
@@ -441,9 +445,12 @@ func (l *Life) Build(batch []Doc, mode int) *hseg {
 		opBegin("New")
 		seg, size, err = l.plugin.New(MakeDocs(batch))
 		opEnd()
+		if l.afterNew != nil {
+			l.afterNew()
+		}
 	}()
 	if pan != "" || err != nil {
-		l.tr.Emit(EvBuildFail{Ev: "buildfail", Mode: mode, Batch: batch, Rejected: rejecting(batch), Panic: pan})
+		l.tr.Emit(EvBuildFail{Ev: "buildfail", Mode: mode, Batch: batch, Rejected: rejecting(batch), Panic: pan, Engine: l.injected})
 		return nil
 	}
 	u := universeOf(batch)
@@ -548,7 +555,7 @@ func (l *Life) Merge(ins []*hseg, drops []Drop, mode int) (int, bool) {
 	os.Remove(path)
 	segs := make([]segment.Segment, len(ins))
 	bms := make([]*roaring.Bitmap, len(ins))
-	ev := EvMerge{Ev: "merge", File: k, Ins: Ints{}, Drops: drops, Mode: mode, Maps: []Ints{}}
+	ev := EvMerge{Ev: "merge", File: k, Ins: Ints{}, Drops: drops, Mode: mode, Maps: []Ints{}, Engine: l.injected}
 	u := newUniverse()
 	for i, h := range ins {
 		segs[i] = h.seg
